@@ -86,6 +86,7 @@ def shards(tier):
         for k in range(K):
             out.append(dict(fam=fam, k=k))
     out.append(dict(fam="leaves", k=0))
+    out += [dict(fam="mhist", k=k) for k in range(K)]
     return out
 
 
@@ -229,7 +230,7 @@ def build_two_nets(src, sinks, kinds):
     return vr, nets, cons, pl, al, [exp, exp2]
 
 
-def run_case(case, acc, bound, count=True):
+def run_case(case, acc, bound, count=True, machine_obj=None):
     """Explore one (machine, net, radius) under owned tie-breaks."""
     from rig.place_and_route.route import ner
     from rig.place_and_route.route import utils as rutils
@@ -240,7 +241,7 @@ def run_case(case, acc, bound, count=True):
     connected = case.get("_connected")
     if connected is None:
         connected = m.strongly_connected()
-    machine = m.to_rig()
+    machine = m.to_rig() if machine_obj is None else machine_obj
     saved = geometry.random, rutils.random
 
     def run(ch):
@@ -444,6 +445,56 @@ def run_tf(fam, k, tier, acc):
                                                         (tl or [])]))
 
 
+def run_mhist_path(base_case, path, acc):
+    """One rig Machine object lives through a history: route, a link of the
+    tree dies (machine.dead_links.add), route again, ...  Every route() call
+    is judged against the machine as it is at that moment."""
+    m0 = M(base_case["w"], base_case["h"], base_case["dead_chips"],
+           base_case["dead_links"])
+    machine = m0.to_rig()
+    for i in range(len(path) + 1):
+        if i:
+            machine.dead_links.add(_rig_link(path[i - 1]))
+        case = dict(base_case, dead_links=[list(l) for l in
+                                           list(base_case["dead_links"]) +
+                                           [list(p) for p in path[:i]]],
+                    mhist=[list(p) for p in path[:i]],
+                    mhist_base=[list(l) for l in base_case["dead_links"]])
+        acc.nontrivial += 1
+        run_case(case, acc, 0, machine_obj=machine)
+
+
+def _rig_link(l):
+    from rig.links import Links
+    return (l[0], l[1], Links(l[2]))
+
+
+def run_mhist(k, tier, acc):
+    i = -1
+    for (w, h, mesh, max_sinks) in ((3, 3, False, 2), (4, 4, True, 1)):
+        base = sorted(wrap_links(w, h)) if mesh else []
+        m = M(w, h, [], base)
+        for src in m.chips:
+            for ns in range(1, max_sinks + 1):
+                for sinks in itertools.combinations(m.chips, ns):
+                    i += 1
+                    if i % K != k:
+                        continue
+                    c0 = dict(w=w, h=h, dead_chips=[],
+                              dead_links=[list(l) for l in base],
+                              src=list(src), sinks=[list(x) for x in sinks],
+                              kinds=["cores"] * ns, radius=20, _fam="mhist")
+                    tl0 = tree_links(c0) or []
+                    for l1 in tl0:
+                        c1 = dict(c0, dead_links=c0["dead_links"] + [list(l1)])
+                        tl1 = tree_links(c1) or []
+                        if not tl1:
+                            run_mhist_path(c0, [l1], acc)
+                        for l2 in tl1:
+                            run_mhist_path(c0, [l1, l2], acc)
+    acc.sample(dict(fam="mhist", k=k))
+
+
 def run_leaves(tier, acc):
     w = h = 2
     m = M(w, h)
@@ -475,6 +526,9 @@ def run_leaves(tier, acc):
 
 
 def run_shard(params, tier, acc):
+    if params["fam"] == "mhist":
+        run_mhist(params["k"], tier, acc)
+        return
     if params["fam"] == "leaves":
         run_leaves(tier, acc)
     elif params["fam"] in TF_FAMILIES:
@@ -502,7 +556,13 @@ def replay(case, acc):
     ex_explore = globals()["explore"]
     globals()["explore"] = only
     try:
-        run_case(case, acc, 0)
+        if case.get("mhist") is not None:
+            base = dict(case, dead_links=case["mhist_base"])
+            base.pop("mhist")
+            base.pop("mhist_base")
+            run_mhist_path(base, [tuple(p) for p in case["mhist"]], acc)
+        else:
+            run_case(case, acc, 0)
     finally:
         globals()["explore"] = ex_explore
 
